@@ -99,6 +99,11 @@ func (s *netSim) receiver(l *link) {
 		id := int64(l.from)<<40 | int64(l.to)<<32 | n
 		s.log(netEvent{kind: "recv-call", from: l.to, to: l.from, call: id})
 		cctx, cancel := context.WithTimeout(s.ctx, 3*time.Millisecond)
+		if n%5 == 0 {
+			// the application polls with an already cancelled context: it gets the pending
+			// message or an error, never both
+			cancel()
+		}
 		m, err := l.ref.Recv(cctx)
 		cancel()
 		if err == nil {
